@@ -39,13 +39,8 @@ theorem C12_selected_is_eligible (s0 : State) (ops : List Op) (c : Nat) (e : Env
     (h : (step (run s0 ops) (.select c e)).2.picked = some b) :
     ∃ l, (run s0 ops).get c = some l ∧ b ∈ l.backends ∧
       (Eligible (run s0 ops).now b ∨
-        ((∀ x ∈ l.backends, ¬ Eligible (run s0 ops).now x) ∧ FailOpenOk (run s0 ops).now b)) := by
-  obtain ⟨l, hl, hc⟩ := select_spec h
-  obtain ⟨hm, hor⟩ := mem_candidates hc
-  refine ⟨l, hl, hm, ?_⟩
-  rcases hor with ho | ⟨hall, hn, hk⟩
-  · exact Or.inl ((eligible_iff _ _).mpr ho)
-  · exact Or.inr ⟨fun x hx => not_eligible_of _ _ (hall x hx), hn, (okay_iff _ _).mp hk⟩
+        ((∀ x ∈ l.backends, ¬ Eligible (run s0 ops).now x) ∧ FailOpenOk (run s0 ops).now b)) :=
+  thm_selected_is_eligible s0 ops c e b h
 
 example : (step (st1 5 [{ bk 0 0 with healthy := false }, bk 1 1] (.roundRobin 0)) (.select 0 env0)).2.picked
     = some (bk 1 1) := by decide
@@ -58,17 +53,8 @@ theorem C12_selected_is_eligible_sticky (s0 : State) (ops : List Op) (c st : Nat
     ∃ l, (run s0 ops).get c = some l ∧ b ∈ l.backends ∧
       (Eligible (run s0 ops).now b ∨
         ((step (run s0 ops) (.sticky c st e)).2.viaSticky = false ∧
-          (∀ x ∈ l.backends, ¬ Eligible (run s0 ops).now x) ∧ FailOpenOk (run s0 ops).now b)) := by
-  obtain ⟨l, hl, hor⟩ := sticky_spec h
-  refine ⟨l, hl, ?_⟩
-  rcases hor with ⟨hf, _⟩ | ⟨_, hv, hc⟩
-  · obtain ⟨hm, _, ho⟩ := findSticky_spec hf
-    exact ⟨hm, Or.inl ((eligible_iff _ _).mpr ho)⟩
-  · obtain ⟨hm, hor⟩ := mem_candidates hc
-    refine ⟨hm, ?_⟩
-    rcases hor with ho | ⟨hall, hn, hk⟩
-    · exact Or.inl ((eligible_iff _ _).mpr ho)
-    · exact Or.inr ⟨hv, fun x hx => not_eligible_of _ _ (hall x hx), hn, (okay_iff _ _).mp hk⟩
+          (∀ x ∈ l.backends, ¬ Eligible (run s0 ops).now x) ∧ FailOpenOk (run s0 ops).now b)) :=
+  thm_selected_is_eligible_sticky s0 ops c st e b h
 
 example : (step (st1 5 [bk 0 0, bk 1 1 (sticky := some 7)] (.roundRobin 0)) (.sticky 0 7 env0)).2.picked
     = some (bk 1 1 (sticky := some 7)) := by decide
@@ -81,15 +67,14 @@ example : (step (st1 5 [{ bk 0 0 with healthy := false }] (.roundRobin 0)) (.sel
     failure back-off window is never returned — not even by fail-open. -/
 theorem C12_never_closing_or_backing_off (s0 : State) (ops : List Op) (c : Nat) (e : Env) (b : Backend)
     (h : (step (run s0 ops) (.select c e)).2.picked = some b) :
-    b.status = .normal ∧ b.retry.wait ≤ (run s0 ops).now - b.retry.last := by
-  obtain ⟨l, _, _, hor⟩ := C12_selected_is_eligible s0 ops c e b h
-  rcases hor with ⟨_, hn, hw⟩ | ⟨_, hn, hw⟩ <;> exact ⟨hn, hw⟩
+    b.status = .normal ∧ b.retry.wait ≤ (run s0 ops).now - b.retry.last :=
+  thm_never_closing_or_backing_off s0 ops c e b h
 
 /-- The back-off window: a `fail()` that takes effect at time `now` with drawn
     wait `w` makes the policy answer WAIT exactly until `w` seconds have elapsed. -/
 theorem C12_backoff_window (r : Retry) (now w now' : Nat) (heff : ¬ (now - r.last < r.wait)) :
-    (r.fail now w).okay now' = true ↔ w ≤ now' - now := by
-  simp [Retry.fail, heff, Retry.okay]
+    (r.fail now w).okay now' = true ↔ w ≤ now' - now :=
+  thm_backoff_window r now w now' heff
 
 /-- inside the window the failed backend is skipped, afterwards it is used again -/
 example : (step (run (st1 5 [bk 0 0, bk 1 1] (.roundRobin 0)) [.fail 0 0 3, .tick 2]) (.select 0 env0)).2.picked
@@ -97,29 +82,59 @@ example : (step (run (st1 5 [bk 0 0, bk 1 1] (.roundRobin 0)) [.fail 0 0 3, .tic
 example : ((step (run (st1 5 [bk 0 0, bk 1 1] (.roundRobin 0)) [.fail 0 0 3, .tick 3]) (.select 0 env0)).2.picked).map (·.id)
     = some 0 := by decide
 
+/-- Exact membership in the cascade's candidate list, for every backend list:
+    primary stage ⇔ some primary is eligible and `b` is an eligible primary;
+    backup stage ⇔ no primary is eligible, some backup is, and `b` is an eligible
+    backup; fail-open ⇔ nothing is eligible and `b` is Normal and not backing off. -/
+theorem C12_candidates_iff (now : Nat) (bs : List Backend) (b : Backend) :
+    b ∈ candidates now bs ↔ b ∈ bs ∧
+      (((∃ x ∈ bs, x.backup = false ∧ Eligible now x) ∧ b.backup = false ∧ Eligible now b) ∨
+       ((∀ x ∈ bs, x.backup = false → ¬ Eligible now x) ∧ (∃ x ∈ bs, x.backup = true ∧ Eligible now x) ∧
+          b.backup = true ∧ Eligible now b) ∨
+       ((∀ x ∈ bs, ¬ Eligible now x) ∧ FailOpenOk now b)) :=
+  mem_candidates_iff now bs b
+
+example : candidates 5 [{ bk 0 0 with healthy := false }, bk 1 1 (backup := true), bk 2 2 (backup := true)]
+    = [bk 1 1 (backup := true), bk 2 2 (backup := true)] := by decide
+
+/-- Fail-open as an iff, for every history and every request (any policy, key,
+    random choice): some selection outcome is a non-eligible backend **exactly
+    when** the cluster exists, none of its backends is eligible and at least one
+    is Normal and not backing off. -/
+theorem C12_fail_open_iff (s0 : State) (ops : List Op) (c : Nat) (e : Env) :
+    (∃ b, (step (run s0 ops) (.select c e)).2.picked = some b ∧ ¬ Eligible (run s0 ops).now b) ↔
+    ∃ l, (run s0 ops).get c = some l ∧ (∀ x ∈ l.backends, ¬ Eligible (run s0 ops).now x) ∧
+      (∃ x ∈ l.backends, FailOpenOk (run s0 ops).now x) :=
+  fail_open_iff (run s0 ops) c e
+
+/-- … and a selection returns nothing exactly when no backend of the cluster is
+    Normal and outside its back-off window (so an eligible backend, or a
+    fail-open candidate, is never left unused by any of the six policies). -/
+theorem C12_selection_none_iff (s0 : State) (ops : List Op) (c : Nat) (e : Env) :
+    (step (run s0 ops) (.select c e)).2.picked = none ↔
+    ∀ l, (run s0 ops).get c = some l → ∀ b ∈ l.backends, ¬ FailOpenOk (run s0 ops).now b :=
+  select_picked_none_iff (run s0 ops) c e
+
+example : (step (st1 5 [{ bk 0 0 with status := .closing }] (.powerOfTwo .connections)) (.select 0 env0)).2.picked
+    = none := by decide
+example : ∃ b, (step (st1 5 [{ bk 0 0 with healthy := false }] .random) (.select 0 env0)).2.picked = some b ∧
+    ¬ Eligible 5 b := ⟨{ bk 0 0 with healthy := false }, by decide, by decide⟩
+
 /-! ### backups -/
 
 /-- A backup backend is returned by a selection only when no primary of the
     cluster is eligible. -/
 theorem C12_backup_only_if_no_primary (s0 : State) (ops : List Op) (c : Nat) (e : Env) (b : Backend)
     (h : (step (run s0 ops) (.select c e)).2.picked = some b) (hb : b.backup = true) :
-    ∀ l, (run s0 ops).get c = some l → ∀ x ∈ l.backends, x.backup = false → ¬ Eligible (run s0 ops).now x := by
-  obtain ⟨l, hl, hc⟩ := select_spec h
-  intro l' hl' x hx hxb
-  rw [hl] at hl'; cases hl'
-  exact not_eligible_of _ _ (candidates_backup hc hb x hx hxb)
+    ∀ l, (run s0 ops).get c = some l → ∀ x ∈ l.backends, x.backup = false → ¬ Eligible (run s0 ops).now x :=
+  thm_backup_only_if_no_primary s0 ops c e b h hb
 
 /-- sticky entry point: a backup is returned either because the cookie names it, or no primary is eligible -/
 theorem C12_backup_only_if_no_primary_sticky (s0 : State) (ops : List Op) (c st : Nat) (e : Env) (b : Backend)
     (h : (step (run s0 ops) (.sticky c st e)).2.picked = some b) (hb : b.backup = true)
     (hv : (step (run s0 ops) (.sticky c st e)).2.viaSticky = false) :
-    ∀ l, (run s0 ops).get c = some l → ∀ x ∈ l.backends, x.backup = false → ¬ Eligible (run s0 ops).now x := by
-  obtain ⟨l, hl, hor⟩ := sticky_spec h
-  intro l' hl' x hx hxb
-  rw [hl] at hl'; cases hl'
-  rcases hor with ⟨_, hv'⟩ | ⟨_, _, hc⟩
-  · rw [hv] at hv'; cases hv'
-  · exact not_eligible_of _ _ (candidates_backup hc hb x hx hxb)
+    ∀ l, (run s0 ops).get c = some l → ∀ x ∈ l.backends, x.backup = false → ¬ Eligible (run s0 ops).now x :=
+  thm_backup_only_if_no_primary_sticky s0 ops c st e b h hb hv
 
 example : (step (st1 5 [{ bk 0 0 with healthy := false }, bk 1 1 (backup := true)] (.roundRobin 0)) (.select 0 env0)).2.picked
     = some (bk 1 1 (backup := true)) := by decide
@@ -133,19 +148,15 @@ example : (step (st1 5 [{ bk 0 0 with healthy := false }, bk 1 1 (backup := true
 theorem C12_sticky_wins (s : State) (c st : Nat) (e : Env) (l : BList) (b : Backend)
     (hl : s.get c = some l) (hb : b ∈ l.backends) (hs : b.sticky = some st) (he : Eligible s.now b) :
     ∃ b', (step s (.sticky c st e)).2.picked = some b' ∧ (step s (.sticky c st e)).2.viaSticky = true ∧
-      b' ∈ l.backends ∧ b'.sticky = some st ∧ Eligible s.now b' := by
-  obtain ⟨b', hf⟩ := findSticky_isSome (l := l) hb hs ((eligible_iff _ _).mp he)
-  obtain ⟨hm, hs', hc'⟩ := findSticky_spec hf
-  exact ⟨b', by simp [step, hl, hf, Out.picked], by simp [step, hl, hf, Out.viaSticky], hm, hs',
-    (eligible_iff _ _).mpr hc'⟩
+      b' ∈ l.backends ∧ b'.sticky = some st ∧ Eligible s.now b' :=
+  thm_sticky_wins s c st e l b hl hb hs he
 
 /-- and when the sticky id designates one backend only, that backend is the one returned -/
 theorem C12_sticky_wins_unique (s : State) (c st : Nat) (e : Env) (l : BList) (b : Backend)
     (hl : s.get c = some l) (hb : b ∈ l.backends) (hs : b.sticky = some st) (he : Eligible s.now b)
     (huniq : ∀ x ∈ l.backends, ∀ y ∈ l.backends, x.sticky = some st → y.sticky = some st → x = y) :
-    (step s (.sticky c st e)).2.picked = some b := by
-  obtain ⟨b', hp, _, hm, hs', _⟩ := C12_sticky_wins s c st e l b hl hb hs he
-  rw [hp, huniq b' hm b hb hs' hs]
+    (step s (.sticky c st e)).2.picked = some b :=
+  thm_sticky_wins_unique s c st e l b hl hb hs he huniq
 
 example : ∃ (s : State) (l : BList) (b : Backend), s.get 0 = some l ∧ b ∈ l.backends ∧ b.sticky = some 7 ∧ Eligible s.now b :=
   ⟨st1 5 [bk 0 0, bk 1 1 (sticky := some 7)] .random, _, bk 1 1 (sticky := some 7), rfl, by simp, rfl, by decide⟩
@@ -165,19 +176,8 @@ theorem C12_affinity_stable (l1 l2 : BList) (now1 now2 n1 n2 k : Nat) (e1 e2 : E
     (hp1 : l1.policy = .hrw n1) (hp2 : l2.policy = .hrw n2)
     (hk1 : e1.key = some k) (hk2 : e2.key = some k) (hsc : e1.score = e2.score)
     (hc : (candidates now1 l1.backends).map ident = (candidates now2 l2.backends).map ident) :
-    (selectChoices l1 now1 e1).2.map ident = (selectChoices l2 now2 e2).2.map ident := by
-  unfold selectChoices
-  simp only
-  rw [isEmpty_of_ident hc]
-  split
-  · rfl
-  · simp only [hp1, hp2, lbChoices, hk1, hk2, hsc]
-    have := maxFirst_ident (fun b => e2.score k b.addr b.weight)
-      (by intro x y hxy; simp [ident] at hxy; simp [hxy]) _ _ hc
-    generalize maxFirst (fun b => e2.score k b.addr b.weight) (candidates now1 l1.backends) = o1 at this
-    generalize maxFirst (fun b => e2.score k b.addr b.weight) (candidates now2 l2.backends) = o2 at this
-    cases o1 <;> cases o2 <;> simp at this ⊢
-    exact this
+    (selectChoices l1 now1 e1).2.map ident = (selectChoices l2 now2 e2).2.map ident :=
+  affinity_hrw l1 l2 now1 now2 n1 n2 k e1 e2 hp1 hp2 hk1 hk2 hsc hc
 
 example : (selectChoices { backends := [bk 0 0, bk 1 1, bk 2 2], policy := .hrw 0 } 5 (envK 9)).2 = [bk 2 2] := by decide
 
@@ -190,42 +190,8 @@ theorem C12_affinity_stable_maglev (l1 l2 : BList) (now1 now2 n1 n2 k : Nat) (bu
     (hp1 : l1.policy = .maglev built n1) (hp2 : l2.policy = .maglev built n2)
     (hk1 : e1.key = some k) (hk2 : e2.key = some k) (hpf : e1.pref = e2.pref)
     (hc : (candidates now1 l1.backends).map ident = (candidates now2 l2.backends).map ident) :
-    (selectChoices l1 now1 e1).2.map ident = (selectChoices l2 now2 e2).2.map ident := by
-  unfold selectChoices
-  simp only
-  rw [isEmpty_of_ident hc]
-  split
-  · rfl
-  · next hne =>
-    have hne1 : (candidates now1 l1.backends).isEmpty = false := by rw [isEmpty_of_ident hc]; simpa using hne
-    have hne2 : (candidates now2 l2.backends).isEmpty = false := by simpa using hne
-    simp only [hp1, hp2, lbChoices, hk1, hk2, hne1, hne2, Bool.false_eq_true, if_false]
-    have hb : (if built.isEmpty then (candidates now1 l1.backends).map (·.addr) else built) =
-        (if built.isEmpty then (candidates now2 l2.backends).map (·.addr) else built) := by
-      rw [map_addr_of_ident hc]
-    have hlk := maglevLookup_ident e1.pref
-      (if built.isEmpty then (candidates now1 l1.backends).map (·.addr) else built) _ _ hc
-    have hget := getElem?_ident (k % (candidates now1 l1.backends).length) _ _ hc
-    rw [← hpf, ← hb, ← length_of_ident hc]
-    cases h1 : maglevLookup e1.pref
-        (if built.isEmpty then (candidates now1 l1.backends).map (·.addr) else built) (candidates now1 l1.backends) with
-    | none =>
-      rw [h1] at hlk
-      cases h2 : maglevLookup e1.pref
-          (if built.isEmpty then (candidates now1 l1.backends).map (·.addr) else built) (candidates now2 l2.backends) with
-      | some b2 => rw [h2] at hlk; simp at hlk
-      | none =>
-        simp only
-        generalize (candidates now1 l1.backends)[k % (candidates now1 l1.backends).length]? = o1 at hget
-        generalize (candidates now2 l2.backends)[k % (candidates now1 l1.backends).length]? = o2 at hget
-        cases o1 <;> cases o2 <;> simp at hget ⊢
-        exact hget
-    | some b1 =>
-      rw [h1] at hlk
-      cases h2 : maglevLookup e1.pref
-          (if built.isEmpty then (candidates now1 l1.backends).map (·.addr) else built) (candidates now2 l2.backends) with
-      | none => rw [h2] at hlk; simp at hlk
-      | some b2 => rw [h2] at hlk; simpa using hlk
+    (selectChoices l1 now1 e1).2.map ident = (selectChoices l2 now2 e2).2.map ident :=
+  affinity_maglev l1 l2 now1 now2 n1 n2 k built e1 e2 hp1 hp2 hk1 hk2 hpf hc
 
 example : (selectChoices { backends := [bk 0 0, bk 1 1, bk 2 2], policy := .maglev [0, 1, 2] 0 } 5 (envK 9 [1, 0, 2])).2
     = [bk 1 1] := by decide
@@ -247,13 +213,39 @@ example :
     Closed backend holds none. -/
 theorem C12_counters_balanced (b : Backend) (ops : List COp) (b' : Backend) (out' : Nat)
     (h0 : b.conns = 0) (h : crun (b, 0) ops = some (b', out')) :
-    b'.conns = out' ∧ (out' = 0 → b'.conns = 0) ∧ (b'.status = .closed → b'.conns = 0) := by
-  have hi : CInv (b, 0) := ⟨h0, fun _ => rfl⟩
-  have := cinv_run ops hi h
-  exact ⟨this.1, fun hz => this.1.trans hz, fun hc => this.1.trans (this.2 hc)⟩
+    b'.conns = out' ∧ (out' = 0 → b'.conns = 0) ∧ (b'.status = .closed → b'.conns = 0) :=
+  thm_counters_balanced b ops b' out' h0 h
 
 example : crun (bk 0 0, 0) [.inc, .inc, .dec, .closing, .inc, .dec] =
     some ({ bk 0 0 with status := .closed }, 0) := by decide
+
+/-- Whole map, **any** op sequence from the initial state (no bracketing
+    assumption): a Closed backend never holds a connection, and the back-off
+    policy never exceeds its try budget. -/
+theorem C12_closed_holds_none (ops : List Op) (c : Nat) (l : BList) (b : Backend)
+    (hl : (run State.init ops).get c = some l) (hb : b ∈ l.backends) :
+    (b.status = .closed → b.conns = 0) ∧ b.retry.tries ≤ b.retry.max :=
+  ⟨allB_run stable_closedEmpty ops (allB_init _) c l hl b hb,
+   allB_run stable_triesBounded ops (allB_init _) c l hl b hb⟩
+
+example : ((run State.init [.add 0 1 1 none none false, .inc 0 0, .closing 0 0, .dec 0 0, .dec 0 0, .inc 0 0]).get 0).map
+    (fun l => l.backends.map (fun b => (b.status, b.conns))) = some [(.closed, 0)] := by decide
+
+/-- Whole map, any start state, any history: the (id, address, connections,
+    requests) rows of a cluster change **only** through the counter ops aimed at
+    that cluster (inc / dec / close-by-address / request inc / dec) and through
+    add / remove of that cluster. Health results, health-check removal, retry
+    fail / succeed, set-closing, policy changes, time, selections and sticky
+    selections, and every op on another cluster leave every count as it is — so
+    together with `C12_counters_balanced` counts move by exactly one per open /
+    close and by nothing else. -/
+theorem C12_counters_untouched_by_other_ops (s : State) (c : Nat) (ops : List Op)
+    (hops : ∀ o ∈ ops, o.touchesCounters c = false) : ctrsOf (run s ops) c = ctrsOf s c :=
+  ctrs_run ops s hops
+
+example : ctrsOf (run (st1 5 [{ bk 0 0 with conns := 2, reqs := 1 }, bk 1 1] (.roundRobin 0))
+    [.health 0 0 false 1, .fail 0 1 3, .tick 9, .select 0 env0, .setPolicy 0 .maglev none, .closing 0 0, .inc 1 0,
+     .healthOff 0, .sticky 0 3 env0]) 0 = [(0, 0, 2, 1), (1, 1, 0, 0)] := by decide
 
 /-- request counter (`active_requests += 1` / `saturating_sub(1)` at the session
     call sites): in every history where only requests in flight end, the count
@@ -269,9 +261,8 @@ example : rrun (0, 0) [true, true, false, true, false, false] = some (0, 0) := b
     backend's address restores every counter. -/
 theorem C12_close_by_address_partial (l : BList) (i : Nat) (b : Backend) (hb : l.backends[i]? = some b)
     (hn : b.status = .normal) (huniq : (l.backends.map (·.addr)).Nodup) :
-    (closeByAddr (incAt l i) b.addr).backends = l.backends := by
-  simp only [closeByAddr, incAt]
-  exact close_after_open_unique l.backends i b hb hn huniq
+    (closeByAddr (incAt l i) b.addr).backends = l.backends :=
+  thm_close_by_address_partial l i b hb hn huniq
 
 example : (closeByAddr (incAt { backends := [bk 0 0, bk 1 1], policy := .random } 1) 1).backends = [bk 0 0, bk 1 1] := by
   decide
@@ -285,6 +276,42 @@ theorem C12_close_by_address_counterexample :
       ((closeByAddr (incAt l i) b.addr).backends.map (·.conns)) = [0, 1] :=
   ⟨{ backends := [bk 0 1, bk 1 1], policy := .random }, 1, bk 1 1, rfl, rfl, by decide, by decide⟩
 
+/-! ### health results are recorded by address -/
+
+/-- `record_check_result` looks the backend up by address. With **unique
+    addresses** in the cluster a result for the backend at position `i` is
+    recorded on that backend and on no other. -/
+theorem C12_health_by_address_partial (s : State) (c i : Nat) (b : Backend) (ok : Bool) (thr : Nat)
+    (hb : (backendsOf s c)[i]? = some b) (huniq : ((backendsOf s c).map (·.addr)).Nodup) :
+    backendsOf (step s (.health c b.addr ok thr)).1 c =
+      updAt (fun x => (recordCheck x ok thr).1) i (backendsOf s c) :=
+  (health_step_backends s c b.addr ok thr).trans
+    (updFirst_eq_updAt_of_unique _ (backendsOf s c) i b hb huniq)
+
+example : backendsOf (step (st1 5 [bk 0 0, bk 1 1] .random) (.health 0 1 false 1)).1 0
+    = [bk 0 0, { bk 1 1 with healthy := false, fails := 1 }] := by decide
+
+/-- Without unique addresses: every backend that sits behind another backend of
+    the same address (an A/B variant) is left untouched by **every** run of
+    health results for that address — it can never be marked unhealthy (nor
+    healthy again). -/
+theorem C12_health_by_address_shadowed (s : State) (c a : Nat) (rs : List (Bool × Nat)) (l1 l2 : List Backend)
+    (hb : backendsOf s c = l1 ++ l2) (hhit : ∃ y ∈ l1, y.addr = a) :
+    ∃ l1', backendsOf (run s (healthOps c a rs)) c = l1' ++ l2 ∧ l1'.map (·.addr) = l1.map (·.addr) :=
+  health_run_shadowed c a rs s l1 l2 hb hhit
+
+example : backendsOf (run (st1 5 [bk 0 1, bk 1 1, bk 2 2] .random) (healthOps 0 1 [(false, 1), (false, 1), (true, 1)])) 0
+    = [{ bk 0 1 with succ := 1 }, bk 1 1, bk 2 2] := by decide
+
+/-- the excluded point: two backends at address 1, two failed probes (one per
+    backend, threshold 1): the first is marked, the second is not, and the next
+    request goes to the second — same dead address. -/
+theorem C12_health_by_address_counterexample :
+    (step (run (st1 5 [bk 0 1, bk 1 1] (.roundRobin 0)) [.health 0 1 false 1, .health 0 1 false 1])
+      (.select 0 env0)).2.picked = some (bk 1 1) ∧
+    (backendsOf (run (st1 5 [bk 0 1, bk 1 1] (.roundRobin 0)) [.health 0 1 false 1, .health 0 1 false 1]) 0).map
+      (·.healthy) = [false, true] := by decide
+
 /-! ### removal -/
 
 /-- After `remove_backend(c, a)`, for every following history that does not add
@@ -292,19 +319,16 @@ theorem C12_close_by_address_counterexample :
     that address. -/
 theorem C12_removed_never_selected (s : State) (c a : Nat) (ops : List Op)
     (hops : ∀ o ∈ ops, o.addsAddr c a = false) (e : Env) (b : Backend)
-    (h : (step (run (step s (.remove c a)).1 ops) (.select c e)).2.picked = some b) : b.addr ≠ a := by
-  have hn := noAddr_run ops _ (noAddr_remove s c a) hops
-  obtain ⟨l, hl, hc⟩ := select_spec h
-  exact hn l hl b (mem_candidates hc).1
+    (h : (step (run (step s (.remove c a)).1 ops) (.select c e)).2.picked = some b) : b.addr ≠ a :=
+  thm_removed_never_selected s c a ops hops e b h
 
 theorem C12_removed_never_selected_sticky (s : State) (c a st : Nat) (ops : List Op)
     (hops : ∀ o ∈ ops, o.addsAddr c a = false) (e : Env) (b : Backend)
-    (h : (step (run (step s (.remove c a)).1 ops) (.sticky c st e)).2.picked = some b) : b.addr ≠ a := by
-  have hn := noAddr_run ops _ (noAddr_remove s c a) hops
-  obtain ⟨l, hl, hor⟩ := sticky_spec h
-  rcases hor with ⟨hf, _⟩ | ⟨_, _, hc⟩
-  · exact hn l hl b (findSticky_spec hf).1
-  · exact hn l hl b (mem_candidates hc).1
+    (h : (step (run (step s (.remove c a)).1 ops) (.sticky c st e)).2.picked = some b) : b.addr ≠ a :=
+  thm_removed_never_selected_sticky s c a st ops hops e b h
+
+example : (step (run (step (st1 5 [bk 0 0 (sticky := some 4), bk 1 1] (.roundRobin 0)) (.remove 0 0)).1 [.tick 1])
+    (.sticky 0 4 env0)).2.picked = some (bk 1 1) := by decide
 
 example : (step (run (step (st1 5 [bk 0 0, bk 1 1] (.roundRobin 0)) (.remove 0 0)).1
       [.tick 3, .add 0 2 2 none none false, .inc 0 0]) (.select 0 env0)).2.picked = some { bk 1 1 with conns := 1 } := by
